@@ -948,6 +948,8 @@ func c05Verify(c *Ctx, prune *ssa.Function) {
 }
 
 var c05Canaries = []Canary{
+	{Name: "r5-ls-tree-full-name", ExpectKey: "C05.R5#git.LsTree", Edits: []Edit{{File: "git/git.go", Find: "\t\t\"--full-tree\", // start at the root regardless of where we are in it", Repl: "\t\t\"--full-name\", // start at the root regardless of where we are in it"}}},
+	{Name: "r5-worktree-heads-under-recent", ExpectKey: "C05.R3#checkout-retention-only-force", Edits: []Edit{{File: "commands/command_prune.go", Find: "\t\tif !fetchconf.PruneForce && commits.Add(worktree.Ref.Sha) {", Repl: "\t\tif !fetchconf.PruneRecent && commits.Add(worktree.Ref.Sha) {"}}},
 	{Name: "r4-dry-run-transposed", ExpectKey: "C05.R1#dry-run-flag-reaches-prune", Edits: []Edit{{File: "commands/command_fetch.go", Find: "prune(fetchPruneCfg, verify, verifyUnreachable, false, fetchDryRunArg, fetchDryRunArg)", Repl: "prune(fetchPruneCfg, verify, verifyUnreachable, fetchDryRunArg, false, fetchDryRunArg)"}}},
 	{Name: "dry-run-deletes", ExpectKey: "C05.R1#delete-gated-by-dry-run", Edits: []Edit{{File: "commands/command_prune.go", Find: "	if !dryRun {\n		pruneDeleteFiles(prunableObjects, logger)\n	}", Repl: "	if !dryRun || verbose {\n		pruneDeleteFiles(prunableObjects, logger)\n	}"}}},
 	{Name: "inverted-contains", ExpectKey: "C05.R2", Edits: []Edit{{File: "commands/command_prune.go", Find: "		if !retainedObjects.Contains(file.Oid) {", Repl: "		if retainedObjects.Contains(file.Oid) {"}}},
